@@ -39,9 +39,9 @@ Definition sel_a := set_from (q_init QGeneric) [TTab ta].
 Definition ins_a := set_insert (q_init QPostgres) (Some ta).
 Definition pg_sel := set_selects (set_from (q_init QPostgres) [TTab ta]) 1 false.
 Definition pg_upd := set_from (set_update (q_init QPostgres) (Some ta)) [TTab tb].
-Definition crit_tableless : list (jfield * jfield) := [((None, "x"), (Some (TTab tb), "y"))].
-Definition crit_shadow : list (jfield * jfield) :=
-  [((Some (TTab ta_s1), "id"), (Some (TTab tb), "k")); ((Some (TTab ta), "id"), (Some (TTab tb), "id"))].
+Definition crit_tableless : jterm := crit_of_pairs [((None, "x"), (Some (TTab tb), "y"))].
+Definition crit_shadow : jterm :=
+  crit_of_pairs [((Some (TTab ta_s1), "id"), (Some (TTab tb), "k")); ((Some (TTab ta), "id"), (Some (TTab tb), "id"))].
 
 (* the guard half of the statement holds for every kind of object, all states and all calls of the contract: a call
    raises class k exactly when the documented table says so -- outside the one situation frag_q excludes (a join
@@ -75,12 +75,15 @@ Definition C14_fragment_statement : Prop :=
   /\ raise_safe effects = true
   /\ forallb (fun m => existsb (String.eqb m) dead_raise_methods) (mutable_unsafe effects) = true
   /\ mutable_unsafe effects = expected_mutable_unsafe
-  /\ classes_ok effects expected_raises = true.
+  /\ classes_ok effects expected_raises = true
+  (* the operands nodes_ leaves out are exactly the known ones (recomputed from pypika/terms.py on every run) *)
+  /\ nodes_gaps nodes_coverage = expected_nodes_gaps.
 
 Theorem C14_on_fragment : C14_fragment_statement.
 Proof.
   split; [exact C14_guards_hold|].
-  split; [vm_compute; reflexivity|]. split; [vm_compute; reflexivity|]. split; [vm_compute; reflexivity|]. vm_compute; reflexivity.
+  split; [vm_compute; reflexivity|]. split; [vm_compute; reflexivity|]. split; [vm_compute; reflexivity|].
+  split; vm_compute; reflexivity.
 Qed.
 Print Assumptions C14_on_fragment.
 
@@ -108,7 +111,7 @@ Print Assumptions C14_select_atomic.
 Definition sub_s1 := TSub (Some "s") "c" 0.
 Definition sub_s3 := TSub (Some "s") "c" 1.
 Definition sub_s2 := TSub (Some "s") "d" 0.
-Definition crit_sub (t : tbl) : list (jfield * jfield) := [((Some (TTab ta), "x"), (Some t, "z"))].
+Definition crit_sub (t : tbl) : jterm := crit_of_pairs [((Some (TTab ta), "x"), (Some t, "z"))].
 Theorem C14_refuted_subquery_same_alias_same_from :
   wf_q sel_a (QJoin sub_s1 (JOn (Some (crit_sub sub_s3)))) = true
   /\ (exists s', step_q sel_a (QJoin sub_s1 (JOn (Some (crit_sub sub_s3)))) = Ok s')
@@ -118,6 +121,19 @@ Theorem C14_refuted_subquery_same_alias_same_from :
   /\ step_q sel_a (QJoin sub_s1 (JOn (Some (crit_sub sub_s2)))) = Err JoinExc.
 Proof. vm_compute. repeat split; eexists; reflexivity. Qed.
 Print Assumptions C14_refuted_subquery_same_alias_same_from.
+
+(* C14-join-operand-invisible-to-nodes: from_(a).join(b).on(a.x == -zz.y) is accepted: Negative.nodes_ does not visit
+   its operand; with zz.y in any operand nodes_ visits (here: the upper bound of a BETWEEN) it is rejected *)
+Definition fzz : jterm := JF (Some (TTab tzz), "y").
+Definition fa : jterm := JF (Some (TTab ta), "x").
+Definition fb : jterm := JF (Some (TTab tb), "x").
+Theorem C14_refuted_operand_invisible_to_nodes :
+  wf_q sel_a (QJoin (TTab tb) (JOn (Some (JBin fa (JHid [] [fzz]))))) = true
+  /\ (exists s', step_q sel_a (QJoin (TTab tb) (JOn (Some (JBin fa (JHid [] [fzz]))))) = Ok s')
+  /\ first_fired guards_q (sel_a, QJoin (TTab tb) (JOn (Some (JBin fa (JHid [] [fzz]))))) = Some JoinExc
+  /\ step_q sel_a (QJoin (TTab tb) (JOn (Some (JTri fa fb fzz)))) = Err JoinExc.
+Proof. vm_compute. repeat split; eexists; reflexivity. Qed.
+Print Assumptions C14_refuted_operand_invisible_to_nodes.
 
 Theorem C14_refuted : ~ C14_full_statement.
 Proof.
@@ -179,10 +195,10 @@ Print Assumptions C14_resolve_closed_form.
 (* non-vacuity: states and calls on both sides of the guards                                   *)
 (* ------------------------------------------------------------------------------------------ *)
 Example C14_example_join :
-  let s := set_joins sel_a [mkJ (TTab tb) (Some [ta; tb]) []] in
+  let s := set_joins sel_a [mkJ (TTab tb) (Some [ta; tb]) [] []] in
   let tc := mkPT "c" None None in
-  let good := [((Some (TTab tb), "x"), (Some (TTab tc), "x")); ((None, "k"), (Some (TTab ta), "k"))] in
-  let bad := [((Some (TTab tzz), "x"), (Some (TTab tc), "x"))] in
+  let good := crit_of_pairs [((Some (TTab tb), "x"), (Some (TTab tc), "x")); ((None, "k"), (Some (TTab ta), "k"))] in
+  let bad := crit_of_pairs [((Some (TTab tzz), "x"), (Some (TTab tc), "x"))] in
   wf_q s (QJoin (TTab tc) (JOn (Some good))) = true
   /\ (exists s', step_q s (QJoin (TTab tc) (JOn (Some good))) = Ok s')
   /\ wf_q s (QJoin (TTab tc) (JOn (Some bad))) = true
@@ -205,9 +221,20 @@ Example C14_example_subquery :
      = [Some JoinExc; Some JoinExc; None; None; None; Some JoinExc].
 Proof. vm_compute. split; reflexivity. Qed.
 
+(* the foreign table in every operand position nodes_ visits: each criterion is rejected, and is inside the fragment *)
+Example C14_example_every_position :
+  let cs := [JBin fzz fb; JBin fa fzz; JTri fzz fa fb; JTri fa fzz fb; JTri fa fb fzz; JIn fzz [fb; JConst]; JIn fa [fb; fzz];
+             JUn fzz; JBin (JBin fa fb) (JUn fzz); JBin fa (JFn [fb; fzz]); JBin fa (JCase [(JBin fzz JConst, fb)] (Some fb));
+             JBin fa (JCase [(JBin fb JConst, fzz)] (Some fb)); JBin fa (JCase [(JBin fb JConst, fb)] (Some fzz));
+             JBin fa (JBin fb (JBin JConst fzz)); JBin (JBin fa fb) (JBin (JBin fa fb) (JBin fa fzz)); JBin fa (JHid [fzz] [fb])] in
+  forallb (fun c => wf_q sel_a (QJoin (TTab tb) (JOn (Some c))) && frag_q sel_a (QJoin (TTab tb) (JOn (Some c)))) cs = true
+  /\ forallb (fun c => match step_q sel_a (QJoin (TTab tb) (JOn (Some c))) with Err e => String.eqb e JoinExc | Ok _ => false end) cs = true
+  /\ (exists s', step_q sel_a (QJoin (TTab tb) (JOn (Some (JBin fa (JTri fb (JFn [fa; JConst]) (JCase [(JUn fa, fb)] None)))))) = Ok s').
+Proof. vm_compute. repeat split. eexists. reflexivity. Qed.
+
 (* a reference to a WITH query is judged when the statement is rendered: with_() may follow the join (160d589) *)
 Example C14_example_with_reference :
-  let w := [((Some (TAlq "w1"), "x"), (Some (TTab tb), "x"))] in
+  let w := crit_of_pairs [((Some (TAlq "w1"), "x"), (Some (TTab tb), "x"))] in
   snd (run step_q (q_init QGeneric) [QFrom (TTab ta); QJoin (TTab tb) (JOn (Some w)); QRender; QSelect [SStr true]; QRender; QWith "w1"; QRender])
   = [None; None; None; None; Some JoinExc; None; None]
   /\ hist_ok (fun s c => wf_q s c && frag_q s c) step_q (q_init QGeneric) [QFrom (TTab ta); QJoin (TTab tb) (JOn (Some w)); QRender; QSelect [SStr true]; QRender; QWith "w1"; QRender] = true.
